@@ -122,6 +122,9 @@ class ttensor:
 
     def _matches_order(self, array: np.ndarray) -> bool:
         """Check if provided array matches tensor memory layout."""
+        if sparse.issparse(array):
+            # A scipy sparse factor has no dense memory layout: nothing to copy
+            return True
         if array.flags["C_CONTIGUOUS"] and self.order == "C":
             return True
         if array.flags["F_CONTIGUOUS"] and self.order == "F":
